@@ -27,8 +27,21 @@ type C07Exec struct {
 	Call gx.Call `json:"call"`
 }
 
+// C07LongPub: a saturated pool, an update that returns, requests that start after it and wait
+// for an instance, and a long publication (a removal with a name list of Names entries, none
+// of them installed) that is in progress when the instances are handed back.
+type C07LongPub struct {
+	Fill    int `json:"fill"`     // filler rules per version
+	Names   int `json:"names"`    // entries of the removal's name list
+	Waiters int `json:"waiters"`  // requests started after the update returned
+	D1Ms    int `json:"d1_ms"`    // pause between starting the waiters and starting the removal
+	D2Ms    int `json:"d2_ms"`    // pause between starting the removal and letting the parked requests go
+	Incr    bool `json:"incr"`    // the update is incremental (all rules re-submitted) instead of full
+}
+
 type C07Case struct {
-	Mode    string      `json:"mode"` // inside | concurrent | updaters (two goroutines issue commuting updates concurrently)
+	Mode    string      `json:"mode"` // inside | concurrent | updaters (two goroutines issue commuting updates concurrently) | longpub
+	LongPub *C07LongPub `json:"longpub,omitempty"`
 	BigAdd  int         `json:"big_add,omitempty"`   // updaters: number of rules added by the one big incremental update
 	Small   int         `json:"small,omitempty"`     // updaters: number of small incremental updates racing with it
 	Removes []string    `json:"removes,omitempty"`   // updaters: v0 rules removed (one call each) by the second goroutine
@@ -275,10 +288,16 @@ func genC07Call(t *rapid.T, pfx string, method string, s c07Set) gx.Call {
 func init() {
 	register(&Prop{
 		ID:   "C07",
-		Rule: "version-tagged rule sets with pairwise distinct saliences on pools of size (1,2),(1,3),(2,3),(2,4); mode 'inside' (deterministic): one execution through any of the 24 pool methods (selected lists, N-M splits, DAG layerings) during which an injected upd() called from a generated rule performs a generated update (full / incremental with kept or changed saliences and new names / removal) on the same pool, followed by a probe-all that parks one request on every instance; mode 'concurrent': 2-3 client goroutines issue 3-6 executions each while an updater applies 2-4 updates, every call stamped with a global sequence number; oracle: each execution's result map equals the expected map of exactly one version k with lo <= k <= hi (lo = last update that returned before the execution started, hi = last update that started before it returned) - all rules of that version, none of another - every rule ran at most once, no crash or hang, and after the history every instance runs the last version. Non-trivial: an update lands inside an execution with >= 2 stages/layers or between executions on different instances; distinct by case hash",
+		Rule: "version-tagged rule sets with pairwise distinct saliences on pools of size (1,2),(1,3),(2,3),(2,4); mode 'inside' (deterministic): one execution through any of the 24 pool methods (selected lists, N-M splits, DAG layerings) during which an injected upd() called from a generated rule performs a generated update (full / incremental with kept or changed saliences and new names / removal) on the same pool, followed by a probe-all that parks one request on every instance; mode 'concurrent': 2-3 client goroutines issue 3-6 executions each while an updater applies 2-4 updates, every call stamped with a global sequence number; oracle: each execution's result map equals the expected map of exactly one version k with lo <= k <= hi (lo = last update that returned before the execution started, hi = last update that started before it returned) - all rules of that version, none of another - every rule ran at most once, no crash or hang, and after the history every instance runs the last version. 1% of the cases are long publications: a saturated pool (max requests parked), an update to version 1 (51-301 rules) that returns, 1-3 requests started afterwards that wait for an instance, a removal of 1000-400000 absent names started 0-40 ms later and the parked requests let go 0-120 ms after that; every late request must run version 1 completely, every request one version only. Non-trivial: an update lands inside an execution with >= 2 stages/layers or between executions on different instances; distinct by case hash",
 		New:  func() interface{} { return &C07Case{} },
 		Gen: func(t *rapid.T) interface{} {
 			c := &C07Case{Mode: "inside"}
+			if pct(t, "longpub", 1) {
+				sizes := [][2]int64{{1, 2}, {1, 3}, {2, 3}}
+				s := sizes[uni(t, "longpub_size", 0, 2)]
+				return &C07Case{Mode: "longpub", PoolMin: s[0], PoolMax: s[1], EM: 1, LongPub: &C07LongPub{Fill: uni(t, "longpub_fill", 50, 300),
+					Names: uni(t, "longpub_names", 1000, 400000), Waiters: uni(t, "longpub_waiters", 1, 3), D1Ms: uni(t, "longpub_d1", 0, 40), D2Ms: uni(t, "longpub_d2", 0, 120), Incr: pct(t, "longpub_incr", 30)}}
+			}
 			if pct(t, "concurrent", 25) {
 				c.Mode = "concurrent"
 			} else if pct(t, "updaters", 10) {
@@ -339,8 +358,142 @@ func ruleNamesOf(rs []C08Rule) []string {
 	return out
 }
 
+func c07LongPubText(fill, version int) string {
+	var b strings.Builder
+	fmt.Fprintf(&b, "rule \"m\" \"d\" salience 100000\nbegin\n  hold(who.Id)\n  return %d\nend\n", version)
+	for i := 0; i < fill; i++ {
+		fmt.Fprintf(&b, "rule \"f%d\" \"d\" salience %d\nbegin\n  return %d\nend\n", i, fill-i, version)
+	}
+	return b.String()
+}
+
+func checkC07LongPub(c *C07Case, x *Ctx) {
+	lp := c.LongPub
+	max := int(c.PoolMax)
+	total := max + lp.Waiters
+	slots := make([]*c17Slot, total+1)
+	for i := range slots {
+		slots[i] = &c17Slot{done: make(chan gx.Result, 1)}
+	}
+	apis := map[string]interface{}{"hold": func(id int64) {
+		s := slots[id]
+		atomic.StoreInt32(&s.entered, 1)
+		for atomic.LoadInt32(&s.release) == 0 {
+			time.Sleep(100 * time.Microsecond)
+		}
+	}}
+	p, err := engine.NewGenginePool(c.PoolMin, c.PoolMax, c.EM, c07LongPubText(lp.Fill, 0), apis)
+	if err != nil {
+		x.Violation("setup", "NewGenginePool: %v", err)
+		return
+	}
+	defer func() {
+		for _, s := range slots {
+			atomic.StoreInt32(&s.release, 1)
+		}
+	}()
+	x.Class("long-publication")
+	x.NonTrivial()
+	exec := func(id int) {
+		slots[id].done <- gx.OnPool(p, gx.Call{Method: "Execute", B: true}, map[string]interface{}{"who": &Payload{Id: int64(id)}}, &engine.Stag{})
+	}
+	for id := 0; id < max; id++ {
+		go exec(id)
+	}
+	for id := 0; id < max; id++ {
+		if !c17Await(&slots[id].entered, x) {
+			x.Violation("longpub-setup", "a fresh pool (%d,%d) did not run %d requests simultaneously", c.PoolMin, c.PoolMax, max)
+			return
+		}
+	}
+	v1 := c07LongPubText(lp.Fill, 1)
+	var uerr error
+	var upan string
+	if lp.Incr {
+		uerr, upan = guard(func() error { return p.UpdatePooledRulesIncremental(v1) })
+	} else {
+		uerr, upan = guard(func() error { return p.UpdatePooledRules(v1) })
+	}
+	if uerr != nil || upan != "" {
+		x.Violation("update-failed", "the update to version 1 (%d rules) failed: err=%v panic=%q", lp.Fill+1, uerr, truncate(upan, 200))
+		return
+	}
+	// version 1 is published: every request that starts from here on runs version 1
+	for id := max; id < total; id++ {
+		atomic.StoreInt32(&slots[id].release, 1) // the late requests do not park
+		go exec(id)
+	}
+	time.Sleep(time.Duration(lp.D1Ms) * time.Millisecond)
+	names := make([]string, lp.Names)
+	for i := range names {
+		names[i] = fmt.Sprintf("absent%d", i)
+	}
+	rmDone := make(chan string, 1)
+	var rmStart, rmEnd time.Time
+	go func() {
+		rmStart = time.Now()
+		_, pan := guard(func() error { return p.RemoveRules(names) })
+		rmEnd = time.Now()
+		rmDone <- pan
+	}()
+	time.Sleep(time.Duration(lp.D2Ms) * time.Millisecond)
+	released := time.Now()
+	for id := 0; id < max; id++ {
+		atomic.StoreInt32(&slots[id].release, 1)
+	}
+	for id := 0; id < total; id++ {
+		var res gx.Result
+		select {
+		case res = <-slots[id].done:
+		case <-time.After(hangBound()):
+			x.Violation("longpub-stuck", "request %d did not return within %v (pool (%d,%d), removal of %d absent names from %d rules in progress)", id, hangBound(), c.PoolMin, c.PoolMax, lp.Names, lp.Fill+1)
+			return
+		}
+		if res.Panic != "" || res.Err != nil {
+			x.Violation("longpub-result", "request %d returned err=%v panic=%q", id, res.Err, truncate(res.Panic, 200))
+			return
+		}
+		vers := map[string]bool{}
+		for _, v := range res.Map {
+			vers[fmt.Sprint(v)] = true
+		}
+		if len(res.Map) != lp.Fill+1 || len(vers) != 1 {
+			x.Violation("mixed-versions", "request %d returned %d results with the version markers %v, want %d results of one version", id, len(res.Map), vers, lp.Fill+1)
+			return
+		}
+		if id >= max && !vers["1"] {
+			x.Violation("stale-version", "request %d started after the update to version 1 had returned (it waited for an instance of the saturated pool (%d,%d) while a removal of %d absent names was being published) and ran version %v", id, c.PoolMin, c.PoolMax, lp.Names, vers)
+			return
+		}
+	}
+	select {
+	case pan := <-rmDone:
+		if pan != "" {
+			x.Violation("panic:remove", "RemoveRules panicked: %s", truncate(pan, 200))
+			return
+		}
+	case <-time.After(hangBound()):
+		x.Violation("longpub-stuck", "RemoveRules(%d absent names) did not return within %v", lp.Names, hangBound())
+		return
+	}
+	if released.After(rmStart) && released.Before(rmEnd) {
+		x.Class("long-publication:instances-handed-back-while-the-removal-was-running")
+	}
+	// afterwards: version 1, complete
+	atomic.StoreInt32(&slots[total].release, 1)
+	exec(total)
+	res := <-slots[total].done
+	if res.Panic != "" || res.Err != nil || len(res.Map) != lp.Fill+1 || fmt.Sprint(res.Map["m"]) != "1" {
+		x.Violation("longpub-final", "after the removal of absent names the pool returned %d results (m=%v) err=%v panic=%q, want the %d rules of version 1", len(res.Map), res.Map["m"], res.Err, truncate(res.Panic, 200), lp.Fill+1)
+	}
+}
+
 func checkC07(ci interface{}, x *Ctx) {
 	c := ci.(*C07Case)
+	if c.Mode == "longpub" {
+		checkC07LongPub(c, x)
+		return
+	}
 	env := newSchedEnv()
 	apis := env.apis()
 	var pool *engine.GenginePool
